@@ -225,7 +225,24 @@ func (f *frame) store(x *ssa.Store) {
 			f.enc.escaped = true
 		}
 	}
+	if !f.isLocalBase(l) {
+		f.wrote("store " + f.enc.srcText(f.fn, x.Pos(), "star"))
+	}
 	f.storeLoc(l, val.term, f.curHeap)
+}
+
+func (f *frame) isLocalBase(l *Loc) bool {
+	if l.kind == locGlobal {
+		return false
+	}
+	for fr := f; fr != nil; fr = fr.parent {
+		for _, la := range fr.locals {
+			if la.ref == l.base {
+				return true
+			}
+		}
+	}
+	return false
 }
 
 func (f *frame) unop(x *ssa.UnOp) {
@@ -812,6 +829,7 @@ func (f *frame) mapUpdate(x *ssa.MapUpdate) {
 	f.oblige("safety.nilmap", text, fmt.Sprintf("(not (= %s 0))", m), text, x.Pos())
 	f.assume(fmt.Sprintf("(not (= %s 0))", m))
 	vk, vs, pk, ps := e.mapHeapKeys(t)
+	f.wrote("map update")
 	cv := e.heapGet(f.curHeap, vk, vs)
 	cp := e.heapGet(f.curHeap, pk, ps)
 	e.heapSet(f.curHeap, vk, vs, fmt.Sprintf("(store %s %s (store (select %s %s) %s %s))", cv, m, cv, m, k, v))
